@@ -270,6 +270,82 @@ func init() {
 		}
 		return nil
 	}
+	// sync.Map, sequential semantics: the entries live in a MapObj parked in the cell of the struct's "dirty" field
+	// (so snapshots copy it); its epoch is the epoch of the sync.Map itself, so storing into a sync.Map that existed
+	// before the checkpoint counts as a write to shared state
+	syncMap := func(in *Interp, call *ssa.CallCommon, recv Value) *MapObj {
+		p := recv.(Ptr)
+		if p.obj == nil {
+			panic(in.rtPanic("invalid memory address or nil pointer dereference"))
+		}
+		st := call.StaticCallee().Signature.Recv().Type().Underlying().(*types.Pointer).Elem()
+		su := st.Underlying().(*types.Struct)
+		fi := -1
+		for i := 0; i < su.NumFields(); i++ {
+			if su.Field(i).Name() == "dirty" {
+				fi = i
+			}
+		}
+		if fi < 0 {
+			panic(inconclusive("sync.Map layout without a dirty field"))
+		}
+		off := p.off + in.ti.of(st).fields[fi]
+		if mo, ok := p.obj.cells[off].(*MapObj); ok && mo != nil {
+			return mo
+		}
+		any := types.NewInterfaceType(nil, nil)
+		mo := &MapObj{index: map[string]int{}, epoch: p.obj.epoch, keyT: any, valT: any}
+		p.obj.cells[off] = mo
+		return mo
+	}
+	nilAny := Iface{}
+	m["(*sync.Map).Load"] = func(in *Interp, fr *Frame, args []Value, call *ssa.CallCommon) Value {
+		mo := syncMap(in, call, args[0])
+		if i := in.mapFind(mo, args[1]); i >= 0 {
+			return Tuple{mo.entries[i].v, tTrue}
+		}
+		return Tuple{nilAny, tFalse}
+	}
+	m["(*sync.Map).Store"] = func(in *Interp, fr *Frame, args []Value, call *ssa.CallCommon) Value {
+		in.mapSet(syncMap(in, call, args[0]), args[1], args[2])
+		return nil
+	}
+	m["(*sync.Map).LoadOrStore"] = func(in *Interp, fr *Frame, args []Value, call *ssa.CallCommon) Value {
+		mo := syncMap(in, call, args[0])
+		if i := in.mapFind(mo, args[1]); i >= 0 {
+			return Tuple{mo.entries[i].v, tTrue}
+		}
+		in.mapSet(mo, args[1], args[2])
+		return Tuple{args[2], tFalse}
+	}
+	m["(*sync.Map).LoadAndDelete"] = func(in *Interp, fr *Frame, args []Value, call *ssa.CallCommon) Value {
+		mo := syncMap(in, call, args[0])
+		if i := in.mapFind(mo, args[1]); i >= 0 {
+			v := mo.entries[i].v
+			in.mapDelete(mo, args[1])
+			return Tuple{v, tTrue}
+		}
+		return Tuple{nilAny, tFalse}
+	}
+	m["(*sync.Map).Delete"] = func(in *Interp, fr *Frame, args []Value, call *ssa.CallCommon) Value {
+		in.mapDelete(syncMap(in, call, args[0]), args[1])
+		return nil
+	}
+	m["(*sync.Map).Range"] = func(in *Interp, fr *Frame, args []Value, call *ssa.CallCommon) Value {
+		mo := syncMap(in, call, args[0])
+		it := in.rangeOp(mo).(*RangeIter)
+		for _, k := range it.keys {
+			i := in.mapFind(mo, k)
+			if i < 0 {
+				continue
+			}
+			r := in.callValue(args[1], []Value{k, mo.entries[i].v}, fr, nil)
+			if !in.branch(r.(*Term)) {
+				break
+			}
+		}
+		return nil
+	}
 	m["sort.Slice"] = sortSlice
 	m["sort.SliceStable"] = sortSlice
 	m["(*sync.Mutex).TryLock"] = func(in *Interp, fr *Frame, args []Value, call *ssa.CallCommon) Value { return tTrue }
